@@ -1088,7 +1088,10 @@ class TypeBlocks(ContainerOperand):
                     if retain_key_order:
                         indices = (self._index[x] for x in key)
                     else:
-                        indices = (self._index[x] for x in sorted(key))
+                        # ascending positions: resolve negative positions and discard repeats before sorting
+                        size = len(self._index)
+                        indices = (self._index[x] for x in sorted(
+                                {x + size if -size <= x < 0 else x for x in key}))
                 elif key is None: # get all
                     indices = self._index
                 else:
